@@ -75,6 +75,7 @@ class C18(Check):
             for a_kind in range(4):
                 for two in (False, True):
                     out.append({"part": "redraw", "term": term_name, "prev": a_kind, "views": 2, "two": two, "full_pool": tier != "quick"})
+        out.append({"part": "redraw", "term": "konsole", "prev": 4, "views": 2, "two": True, "full_pool": tier != "quick"})
         # kitty support forced by the user on a terminal where detection fails
         for a_kind in ((1, 2) if tier == "quick" else range(4)):
             out.append({"part": "redraw", "term": "kitty", "prev": a_kind, "views": 2, "two": True, "full_pool": tier != "quick", "forced_only": True})
@@ -336,6 +337,8 @@ class C18(Check):
             [(1, [(0, 0, 2, 1, None, pool[0]), (1, 0, 1, 1, None, pool[2])])],
             [(2, [(0, 0, 1, 2, None, pool[1]), (0, 0, 2, 3, None, pool[0])]), (1, [(0, 0, 1, 1, None, pool[4])])],
             [(1, [(0, 0, 1, 1, None, pool[4])])],
+            # three views of the iterm2 image (several of them can go stale in one redraw)
+            [(1, [(0, 0, 1, 1, None, pool[2]), (0, 0, 1, 1, None, pool[2])]), (1, [(0, 0, 1, 1, None, pool[2])])],
         ]
         prev = prev_kinds[shape["prev"]]
         canvA = urwid.CompositeCanvas(urwid.SolidCanvas(" ", 1, 1))
@@ -350,6 +353,7 @@ class C18(Check):
         shards, ref = self.layout(eng, "next", next_pool, shape["views"])
         canvB = urwid.CompositeCanvas(urwid.SolidCanvas(" ", 1, 1))
         canvB.shards = shards
+        disguise0 = U.UrwidImageCanvas._ti_disguise_state
         screen.draw_screen((9, 9), canvB)
         eng.reachable()
         got = {(id(v[0]),) + tuple(int(x) for x in v[1:]) for v in screen._ti_image_cviews}
@@ -360,6 +364,10 @@ class C18(Check):
         gone_widgets = {by_id[v[0]].widget for v in gone}
         non_kitty_gone = any(not isinstance(wd._ti_image, self.classes["kitty"]) for wd in gone_widgets)
         delete_all = ctl.KITTY_DELETE_ALL in text[:base_at]
+        n_all = text[:base_at].count(ctl.KITTY_DELETE_ALL)
+        eng.claim("delete-all is sent at most once per redraw, and the canvas disguise advances exactly once with it (so that no row of the wiped "
+                  "screen can be served from urwid's line cache, and two changes cannot cancel out)",
+                  n_all <= 1 and (U.UrwidImageCanvas._ti_disguise_state - disguise0) % 3 == n_all)
         if non_kitty_gone:
             eng.claim("a vanished konsole iterm2 image triggers delete-all before the new content", delete_all)
         else:
